@@ -685,6 +685,15 @@ class Interp:
             return rust_float_str(recv)
         if isinstance(recv, str) and not n["args"] and m in ("is_ascii", "is_char_boundary_0"):
             return recv.isascii()
+        if isinstance(recv, str) and len(recv) == 1 and not n["args"] and m in ("to_uppercase", "to_lowercase") and str(n["recv"].get("ty", "")).lstrip("&") == "char":
+            # char::to_uppercase is an iterator over one or more characters (`ß` -> `S`, `S`)
+            return list(recv.upper() if m == "to_uppercase" else recv.lower())
+        if isinstance(recv, list) and not n["args"] and m == "next" and all(isinstance(x, str) and len(x) == 1 for x in recv):
+            return some(recv.pop(0)) if recv else NONE          # an iterator over characters held in a local
+        if isinstance(recv, list) and not n["args"] and m == "as_str" and all(isinstance(x, str) and len(x) == 1 for x in recv):
+            return "".join(recv)
+        if isinstance(recv, list) and not n["args"] and m == "collect" and "String" in str(n.get("ty", "")) and "Vec<" not in str(n.get("ty", "")) and all(isinstance(x, str) for x in recv):
+            return "".join(recv)
         if isinstance(recv, str) and not n["args"] and m in ("to_lowercase", "to_ascii_lowercase", "to_uppercase", "to_ascii_uppercase", "trim", "is_empty", "len"):
             return {"to_lowercase": recv.lower, "to_ascii_lowercase": recv.lower, "to_uppercase": recv.upper, "to_ascii_uppercase": recv.upper,
                     "trim": recv.strip, "is_empty": lambda: recv == "", "len": lambda: len(recv.encode())}[m]()
@@ -1149,6 +1158,21 @@ class Interp:
         if isinstance(recv, list) and not n["args"] and m in ("sort", "sort_unstable"):
             recv.sort()
             return ()
+        if m == "total_cmp" and len(n["args"]) == 1 and isinstance(recv, float):
+            b_ = self.ev(n["args"][0], env)
+            if isinstance(b_, float):
+                # IEEE 754 totalOrder: -NaN < -inf < .. < -0.0 < +0.0 < .. < +inf < +NaN (not the numeric comparison)
+                import struct
+
+                def key(x):
+                    bits = struct.unpack("<q", struct.pack("<d", x))[0]
+                    return bits ^ ((bits >> 63) & 0x7FFFFFFFFFFFFFFF)
+                ka, kb = key(recv), key(b_)
+                return V("Ordering::Less" if ka < kb else ("Ordering::Greater" if ka > kb else "Ordering::Equal"))
+        if m == "partial_cmp" and len(n["args"]) == 1 and isinstance(recv, float):
+            b_ = self.ev(n["args"][0], env)
+            if isinstance(b_, float) and (recv != recv or b_ != b_):
+                return NONE         # NaN is unordered
         if m in ("cmp", "partial_cmp") and len(n["args"]) == 1 and isinstance(recv, (int, float, str)) and not isinstance(recv, bool):
             b_ = self.ev(n["args"][0], env)
             if type(b_) == type(recv) or (isinstance(b_, (int, float)) and isinstance(recv, (int, float)) and not isinstance(b_, bool)):
